@@ -72,7 +72,7 @@ func ZZ_C12_extract() {
 	small := nc <= maxn
 	maxh := maxn + 1
 	if !small {
-		maxh = 2
+		maxh = vParam("bigcounthashes", 1)
 	}
 	nh := vCase("nhashes", 0, maxh)
 	nf := vCase("nflagbytes", 0, vParam("maxflagbytes", 1))
